@@ -250,12 +250,14 @@ Proof. reflexivity. Qed.
 (* ------------------------------------------------------------------ *)
 Lemma wf_set_lab f root n l :
   wf_forest f root ->
-  (n = root -> is_comment (ltag l) = false) ->
+  (n = root -> is_comment (ltag l) = false /\ ltail l = None) ->
   (is_comment (ltag l) = true -> fkids f n = [] /\ lattrs l = []) ->
   NoDup (map fst (lattrs l)) ->
   wf_forest (set_lab f n l) root.
 Proof.
-  intros Hwf H1 H2 H3. destruct Hwf as [W1 W2 W3 W4 W5 W6 W7 W8]. constructor; cbn [set_lab fkids fnext flab]; try assumption.
+  intros Hwf H1 H2 H3. destruct Hwf as [W1 W2 W3 W4 W5 W6 WT W7 W8]. constructor; cbn [set_lab fkids fnext flab]; try assumption.
+  - unfold upd. destruct (Nat.eqb root n) eqn:E; [|assumption].
+    apply Nat.eqb_eq in E. apply H1. symmetry; exact E.
   - unfold upd. destruct (Nat.eqb root n) eqn:E; [|assumption].
     apply Nat.eqb_eq in E. apply H1. symmetry; exact E.
   - intros x Hx. unfold upd. destruct (Nat.eqb x n) eqn:E; [|apply W7; exact Hx].
@@ -265,7 +267,7 @@ Qed.
 
 Lemma wf_detach f root n : wf_forest f root -> wf_forest (detach f n) root.
 Proof.
-  intros Hwf. pose proof Hwf as Hwf0. destruct Hwf as [W1 W2 W3 W4 W5 W6 W7 W8].
+  intros Hwf. pose proof Hwf as Hwf0. destruct Hwf as [W1 W2 W3 W4 W5 W6 WT W7 W8].
   constructor; rewrite ?fnext_detach, ?flab_detach; try assumption.
   - intros p c Hp Hc. rewrite (fkids_detach f root) in Hc by assumption.
     apply remove_id_In in Hc as [Hc _]. eauto.
@@ -283,7 +285,7 @@ Lemma wf_move f root c t pos :
   is_comment (ltag (flab f t)) = false ->
   wf_forest (move_f f c t pos) root.
 Proof.
-  intros Hwf Hcr Hc Ht Hte. pose proof Hwf as Hwf0. destruct Hwf as [W1 W2 W3 W4 W5 W6 W7 W8].
+  intros Hwf Hcr Hc Ht Hte. pose proof Hwf as Hwf0. destruct Hwf as [W1 W2 W3 W4 W5 W6 WT W7 W8].
   constructor; rewrite ?fnext_move, ?flab_move; try assumption.
   - intros p x Hp Hx. apply (fkids_move_In f root) in Hx; try assumption.
     destruct Hx as [[-> _]|[Hx _]]; eauto.
@@ -311,7 +313,7 @@ Lemma wf_ins f root l t pos :
   NoDup (map fst (lattrs l)) ->
   wf_forest (ins_f f l t pos) root.
 Proof.
-  intros Hwf Ht Hte Hl1 Hl2. pose proof Hwf as Hwf0. destruct Hwf as [W1 W2 W3 W4 W5 W6 W7 W8].
+  intros Hwf Ht Hte Hl1 Hl2. pose proof Hwf as Hwf0. destruct Hwf as [W1 W2 W3 W4 W5 W6 WT W7 W8].
   assert (Hk : forall p x, p < S (fnext f) -> In x (fkids (ins_f f l t pos) p) ->
                (x = fnext f /\ p = t) \/ (p < fnext f /\ In x (fkids f p))).
   { intros p x Hp Hx. destruct (Nat.eq_dec p (fnext f)) as [->|Hne].
@@ -335,6 +337,8 @@ Proof.
     + eauto.
   - intros p Hp Hin. apply Hk in Hin; [|exact Hp].
     destruct Hin as [[E _]|[Hp' Hin]]; [lia|]. eapply W5; eauto.
+  - rewrite flab_ins. replace (Nat.eqb root (fnext f)) with false; [assumption|].
+    symmetry. apply Nat.eqb_neq. lia.
   - rewrite flab_ins. replace (Nat.eqb root (fnext f)) with false; [assumption|].
     symmetry. apply Nat.eqb_neq. lia.
   - intros x Hx Hcm. rewrite flab_ins in Hcm |- *. destruct (Nat.eqb x (fnext f)) eqn:E.
